@@ -45,6 +45,7 @@ type Event struct {
 	DtSec int  `json:"dt_sec,omitempty"` // tick: virtual seconds before the cleanup tick; budget: retry count to set
 	FullQ bool `json:"full_q,omitempty"` // tick: the outbound re-observation request queue is full during the tick
 	FullS bool `json:"full_send,omitempty"` // tick: the outbound gossip queue is full during the tick (consumer busy)
+	FullO bool `json:"full_obsv,omitempty"` // msg / inject: the node's inbound observation queue is full at that moment (a burst of gossip)
 }
 
 func (e Event) String() string {
@@ -52,6 +53,9 @@ func (e Event) String() string {
 	case "set":
 		return fmt.Sprintf("Set(%d)", e.Set)
 	case "msg":
+		if e.FullO {
+			return fmt.Sprintf("Msg(%d,inbound observation queue full)", e.M)
+		}
 		return fmt.Sprintf("Msg(%d)", e.M)
 	case "lb":
 		return fmt.Sprintf("LB(%d)", e.LB)
